@@ -450,6 +450,17 @@ func (rs *runState) execStep(s specStep) error {
 			return nil
 		}
 		defer func() { env.Store.IterFault = nil }()
+		// ... or its next point lookup, whichever the step does
+		env.Store.GetFault = func(p string) error {
+			fmu.Lock()
+			defer fmu.Unlock()
+			if p == proc && !fired {
+				fired = true
+				return errors.New("injected transient lookup error")
+			}
+			return nil
+		}
+		defer func() { env.Store.GetFault = nil }()
 	}
 	if _, isWriter := rs.b.WOps[s.P]; isWriter && firstWriterAction[s.A] {
 		st := env.Sched.Peek(s.P)
